@@ -106,16 +106,94 @@ func c13SchedScenario(invalid string) func() schedScenario {
 	}
 }
 
+// c13TwinScenario: two requests carrying the *same* invalid token in flight together: neither may be let through
+// because of anything the other's verification has left behind half-done.
+func c13TwinScenario(invalid string) func() schedScenario {
+	return func() schedScenario {
+		s := c13SchedScenario(invalid)()
+		oauthSetup()
+		scopeAll := "nchf-convergedcharging nchf-offlineonlycharging nchf-spendinglimitcontrol"
+		bad := map[string]string{
+			"other-key": "Bearer " + mkToken(jwt.SigningMethodRS512, otherKey, scopeAll),
+			"garbage":   "Bearer x",
+		}[invalid]
+		s.Body = func(w *World, sctx *schedCtx) {
+			sctx.Go("T1", func() {
+				cr := mkCreate(0, "smf1")
+				_, loc, _ := w.P.ChargingDataCreate(cr.Request(supiA))
+				ref := refOf(loc)
+				up := Op{K: "update", MUs: []MU{{RG: 1, Req: 100, Conts: []Cont{{Vol: 0, Seq: 1}}}}}
+				w.P.ChargingDataUpdate(up.Request(supiA), ref)
+				vs.Quiesce()
+				chf_context.GetSelf().OAuth2Required = true
+				n0 := len(notesSince(0))
+				path := ccBase + "/recharging/" + supiA + "_1"
+				codes := make([]int, 2)
+				vs.S.Fine = true
+				sctx.Free()
+				var ths []*vs.Thread
+				for k := 0; k < 2; k++ {
+					k := k
+					ths = append(ths, vs.Go(fmt.Sprintf("R%d", k+1), func() {
+						codes[k] = w.Do("PUT", path, nil, map[string]string{"Authorization": bad}).Code
+					}))
+				}
+				for {
+					all := true
+					for _, th := range ths {
+						if !th.Finished() {
+							all = false
+						}
+					}
+					if all {
+						break
+					}
+					vs.Quiesce()
+					time.Sleep(500 * time.Millisecond)
+				}
+				sctx.Stop()
+				vs.S.Fine = false
+				vs.Quiesce()
+				sctx.Results["codes"] = codes
+				sctx.Results["notes"] = len(notesSince(n0))
+			})
+		}
+		s.Observe = func(w *World, sctx *schedCtx) (string, []Finding) {
+			var fs []Finding
+			codes, _ := sctx.Results["codes"].([]int)
+			notes, _ := sctx.Results["notes"].(int)
+			if len(codes) != 2 {
+				return "incomplete", nil
+			}
+			what := fmt.Sprintf("two PUT recharging requests in flight together, both with the same token %q", invalid)
+			for k, c := range codes {
+				if c != 401 {
+					fs = append(fs, Finding{"concurrent/twin/not-401/" + invalid, what + fmt.Sprintf(": request %d answered %d", k+1, c)})
+				}
+			}
+			if notes != 0 {
+				fs = append(fs, Finding{"concurrent/twin/processed-although-rejected/" + invalid, what + fmt.Sprintf(": %d re-authorisation notifications were sent", notes)})
+			}
+			return fmt.Sprintf("codes=%v notes=%d", codes, notes), fs
+		}
+		return s
+	}
+}
+
+var c13SchedNames = []string{"c13-valid-next-to-absent", "c13-valid-next-to-other-key", "c13-valid-next-to-garbage", "c13-twin-other-key", "c13-twin-garbage"}
+
 func init() {
 	for _, k := range []string{"absent", "other-key", "garbage"} {
 		schedScenarios["c13-valid-next-to-"+k] = c13SchedScenario(k)
+	}
+	for _, k := range []string{"other-key", "garbage"} {
+		schedScenarios["c13-twin-"+k] = c13TwinScenario(k)
 	}
 }
 
 func c13Schedules(rep *Report, pool *Pool) (per []map[string]any, execs int, exhaustive bool) {
 	exhaustive = true
-	for _, k := range []string{"absent", "other-key", "garbage"} {
-		name := "c13-valid-next-to-" + k
+	for _, name := range c13SchedNames {
 		bound, capExecs := 2, 5000
 		if rep.Tier == "thorough" {
 			bound, capExecs = 3, 100000
